@@ -325,7 +325,11 @@ CHECKS["C12"] = {
             "is wired alone and fed 'held input sampled at the switch cycle, then the input ticks' until the next switch; in every cycle the "
             "switch output (valid, value, ticked) equals the current life's alone run (nothing of an earlier branch is visible, pending timers of a "
             "stopped branch never fire, same key without reload keeps the instance, returning to a key gives fresh state); an unmatched key without "
-            "default makes run() throw. states = distinct output traces; transitions = output ticks; non-trivial = >= 3 branch lives.",
+            "default makes run() throw. states = distinct output traces; transitions = output ticks; non-trivial = >= 3 branch lives. "
+            "Collection input: switch_ over a TSS<Int> input with a branch that folds added()/removed() into a running total and a branch that reads "
+            "the size, every key history over {none,1,2}^4 x every set history over {none,+1,+2,-1,+1+2,+3}^4, with and without reload_on_ticked; the "
+            "output must equal the selected branches run alone, each handed the WHOLE current set as its first delta when it is selected (also when the "
+            "flip coincides with a partial tick of the set).",
     "bounds": {"quick": "T=5 (3125 key histories x 32 input histories x 14 configurations)", "thorough": "T=6"},
     "min_counters": {"quick": {"nontrivial": 100000, "states": 3000, "switch.cases_sdr": 50000}},
     "assumptions": COMMON_ASSUMPTIONS + ["A collection output reset to the EMPTY collection at a switch counts as 'no output of the new branch yet'.",
